@@ -187,6 +187,30 @@ def stepBin (ps : PState) (op via a b : String) (optToks : List String) : PState
     sc st bId y s false
   | _, _ => (ps.failVar, .fields "r=skip")
 
+/-- unary scalar function term for `un <op> …`; clamp carries its bounds -/
+def unaryFn (op : String) (dt : String) (params : List String) : UnF :=
+  match op, params with
+  | "clamp", [lo, hi] => fun x => .app3 "clamp" x (.lit s!"{lo}:{dt}") (.lit s!"{hi}:{dt}")
+  | "apply", _ => if dt == "b" then (fun x => x) else fun x => .app2 "add" x x
+  | _, _ => fun x => .app1 op x
+
+/-- element types `E.Map` has an arm for (all sixteen specialised types + pointers are not generated) -/
+def mapTypes : List String := ["b", "i", "i8", "i16", "i32", "i64", "u", "u8", "u16", "u32", "u64", "f32", "f64", "c64", "c128", "str"]
+
+def stepUn (ps : PState) (op a : String) (rest : List String) : PState × StepOut :=
+  -- parameters (clamp bounds) are the leading `#` tokens of `rest`
+  let params := (rest.takeWhile (·.startsWith "#")).map (fun t => (t.drop 1).toString)
+  let optToks := rest.dropWhile (·.startsWith "#")
+  let po := parseOpts ps optToks
+  if po.bad then (ps.failVar, .fields "r=skip") else
+  match ps.obj a with
+  | none => (ps.failVar, .fields "r=skip")
+  | some (aId, x) =>
+    if op == "apply" then applyEng ps aId po (engMap ps.st (unaryFn op x.dt params) mapTypes x po.o) else
+    match unaryClasses.find? (·.1 == op) with
+    | none => (ps.failVar, .fields "r=badprog")
+    | some (_, tc, kt) => applyEng ps aId po (engUnary ps.st (unaryFn op x.dt params) tc kt (op != "clamp") x po.o)
+
 def stepM (ps : PState) (stepIdx : Nat) (toks : List String) : PState × StepOut :=
   match toks with
   | ["new", dt, shape, order] =>
@@ -333,6 +357,7 @@ def stepM (ps : PState) (stepIdx : Nat) (toks : List String) : PState × StepOut
         | .error (.panic _) => .stop "r=panic")
     | _, _ => (ps, .fields "r=skip")
   | "bin" :: op :: via :: a :: b :: opts => stepBin ps op via a b opts
+  | "un" :: op :: a :: rest => stepUn ps op a rest
   | ["iter", v, script] =>
     match ps.obj v with
     | some (_, t) => (ps, match runIterScript t script with
